@@ -22,7 +22,9 @@ def all_inputs(alphabet, maxlen, mode='text'):
 
 # (patterns that coincide textually with the case-insensitive literals below - 'A', 'aB', 'b', 'ab' -
 # are in the pool on purpose: anything keyed by pattern text alone confuses the two)
-RX_POOL = ['a+', '[ab]', 'a|ab', 'b?a', '(?:ab)+', 'a*', 'b?', 'A', 'aB', 'b', 'ab']
+# ... and patterns that accept the empty string in isolation but can FAIL in context (end anchor,
+# lookahead): "matches ''" is not the same as "cannot fail"
+RX_POOL = ['a+', '[ab]', 'a|ab', 'b?a', '(?:ab)+', 'a*', 'b?', 'A', 'aB', 'b', 'ab', 'a*$', '(?!b)', 'b*(?!a)', '(?=a)']
 
 HELPER_RULES = [
     ('rule', 'RA', None, ('lit', 'a')),
@@ -36,7 +38,7 @@ def core_leaves(mode='text'):
     leaves = [
         ('lit', 'a'), ('lit', 'b'), ('lit', 'ab'), ('lit', ''),
         ('ci', 'A'), ('rx', 'A'),
-        ('rx', 'a+'), ('rx', 'b?a'), ('rx', 'a|ab'), ('rx', 'a*'),
+        ('rx', 'a+'), ('rx', 'b?a'), ('rx', 'a|ab'), ('rx', 'a*'), ('rx', 'a*$'), ('rx', 'b*(?!a)'),
         ('ref', 'RA'), ('ref', 'RAB'),
         ('fail', None), ('backtrack', 1),
     ]
@@ -61,6 +63,10 @@ def apply_unary(u, e, rules=HELPER_NULLABLE):
         return ('expect', e)
     if u == 'expectnot':
         return ('expectnot', e)
+    if u in ('rep2', 'rep12', 'rep02') and not peg.uses_backtrack(e, rules):
+        # a BOUNDED repetition of something that can match nothing is finite and well defined
+        lo, hi = {'rep2': (2, 2), 'rep12': (1, 2), 'rep02': (None, 2)}[u]
+        return ('rep', e, lo, hi)
     if not nn(e, rules):
         return None
     if u == 'star':
@@ -222,7 +228,10 @@ def core_expr(draw, depth, names_later, names_any, allow_backtrack, mode, rules_
     if k == 'rep':
         lo, hi = draw(st.sampled_from([(0, None), (0, None), (1, None), (1, None), (2, None), (2, 2),
                                        (1, 2), (None, 2), (0, 1), (2, 3), (3, 3), (1, 1), (None, 1), (2, 10), (9, 12)]))
-        return ('rep', nonnull(sub()), lo, hi)
+        body = sub()
+        if hi is None or peg.uses_backtrack(body, rules_null):
+            body = nonnull(body)       # only an unbounded repetition needs a body that makes progress
+        return ('rep', body, lo, hi)
     if k in ('expect', 'expectnot'):
         return (k, sub())
     if k == 'skip':
